@@ -109,7 +109,7 @@ func fobs(s string) string {
 		return "FOProtocol"
 	case "error", "e":
 		return "FOError"
-	case "crash":
+	case "crash", "C":
 		return "FOCrash"
 	}
 	return "FOPanic"
@@ -308,7 +308,7 @@ func main() {
 	nProg, nVal := 4, 3
 	maxTruncLen, maxCorruptPos := 400, 24
 	if thorough {
-		nProg, nVal = 28, 5
+		nProg, nVal = 22, 5
 		maxTruncLen, maxCorruptPos = 700, 60
 	}
 	st := &stats{Schema: map[string]int{}, CaseKinds: map[string]int{}, ReadKinds: map[string]int{}, ObsFast: map[string]int{},
@@ -579,6 +579,84 @@ func main() {
 		os.Exit(1)
 	}
 	st.DriverCrashes += crashed2
+
+	// a `fastcorrupt` command whose process died: ask again, one (position, value) per command, so that only
+	// the runs that kill the process are reported as such
+	for _, pd := range pend {
+		if pd.kind != "corrupt" {
+			continue
+		}
+		var g map[string]interface{}
+		json.Unmarshal(res2[pd.cmd], &g)
+		if g["crash"] != true {
+			continue
+		}
+		args := cmds2[pd.cmd].Args
+		var single []gendrv.Cmd
+		type pv struct{ pos, val int }
+		var pvs []pv
+		for _, ps := range strings.Split(args[3], ",") {
+			for _, vs := range strings.Split(args[4], ",") {
+				pos, _ := strconv.Atoi(ps)
+				val, _ := strconv.Atoi(vs)
+				if pos < len(pd.input) && int(pd.input[pos]) != val {
+					single = append(single, gendrv.Cmd{Verb: "fastcorrupt", Args: []string{args[0], args[1], args[2], ps, vs}})
+					pvs = append(pvs, pv{pos, val})
+				}
+			}
+		}
+		l2 := lim
+		l2.Chunk = 40
+		rs, cr, err := fastdrv.Run(b, single, l2)
+		if err != nil {
+			fmt.Fprintln(os.Stderr, "run (crash isolation):", err)
+			os.Exit(1)
+		}
+		st.DriverCrashes += cr
+		var base json.RawMessage
+		var runs []json.RawMessage
+		for i, r := range rs {
+			var o struct {
+				Crash bool              `json:"crash"`
+				Base  json.RawMessage   `json:"base"`
+				Runs  []json.RawMessage `json:"runs"`
+			}
+			json.Unmarshal(r, &o)
+			if o.Crash || len(o.Runs) != 1 {
+				j, _ := json.Marshal([]interface{}{pvs[i].pos, pvs[i].val, "C", -1, nil})
+				runs = append(runs, j)
+				continue
+			}
+			base = o.Base
+			runs = append(runs, o.Runs[0])
+		}
+		if base == nil {
+			continue // every single run died: keep the whole case as a crash
+		}
+		j, _ := json.Marshal(map[string]interface{}{"base": base, "runs": runs, "isolated": true})
+		res2[pd.cmd] = j
+	}
+
+	// corpus: a list header that claims 2^31-1 elements and nothing behind it. make(IdList, 2147483647) is
+	// 16 GiB: under the ulimit of the harness the Go runtime aborts the process (recorded finding); run alone.
+	for _, vec := range vectors {
+		if vec.S.QName() == "a.Tdefs" && vec.unit.Prog.Key == "cp" && strings.HasPrefix(vec.unit.Key, "f0/") {
+			in := []byte{0x0f, 0x00, 0x02, 0x0a, 0x7f, 0xff, 0xff, 0xff}
+			pd := &pending{kind: "read", vec: vec, rkind: "hostile_list_size", input: in, valid: false}
+			c := gendrv.Cmd{Verb: "fastread", Args: []string{vec.unit.Key, vec.S.QName(), hex.EncodeToString(in), "new"}}
+			rs, cr, err := fastdrv.Run(b, []gendrv.Cmd{c}, lim)
+			if err != nil {
+				fmt.Fprintln(os.Stderr, "run (hostile size):", err)
+				os.Exit(1)
+			}
+			st.DriverCrashes += cr
+			pd.cmd = len(res2)
+			res2 = append(res2, rs[0])
+			cmds2 = append(cmds2, c)
+			pend = append(pend, pd)
+			break
+		}
+	}
 	lap("phase 2 (read)")
 
 	// 4. cases, one writer per program
